@@ -39,7 +39,9 @@
       (Go bool), and the values are [p]'s own id, authid, authrole;
     - OR the EVENT is a publication of the realm's META session, and then it
       is a TESTAMENT: its payload is that of a testament stored (in [r]) for an
-      attached session, with publish options asking for [disclose_me] — every
+      attached session that DEPARTS in this step (dropped, GOODBYE, protocol
+      violation, killed through wamp.session.kill*: not attached in
+      [fst (step r o)]), with publish options asking for [disclose_me] — every
       other meta publication (session, registration, subscription meta
       events) has no options and is never disclosed —, and the identity shown
       is the META session's (id 1, authrole "trusted", no authid), never the
@@ -104,7 +106,9 @@ Theorem realm_no_identity_leak_event : forall cfg pre o post y sub pubid det a k
       dget det "publisher_authrole" = Some (vstr "trusted") /\
       exists z zs dt ds t,
         find_session (r_clients r) z = Some zs /\ nget (r_testaments r) z = Some (dt, ds) /\ In t (dt ++ ds) /\
-        opt_bool (t_opts t) "disclose_me" = true /\ a = t_args t /\ k = t_kw t)).
+        opt_bool (t_opts t) "disclose_me" = true /\ a = t_args t /\ k = t_kw t /\
+        (* the testament's owner departs in this step *)
+        find_session (r_clients (fst (step r o))) z = None)).
 Proof. exact realm_no_identity_leak_event_proof. Qed.
 Print Assumptions realm_no_identity_leak_event.
 
@@ -129,7 +133,9 @@ Theorem realm_no_identity_leak_event_noauthz : forall cfg pre o post y sub pubid
       dget det "publisher_authrole" = Some (vstr "trusted") /\
       exists z zs dt ds t,
         find_session (r_clients r) z = Some zs /\ nget (r_testaments r) z = Some (dt, ds) /\ In t (dt ++ ds) /\
-        opt_bool (t_opts t) "disclose_me" = true /\ a = t_args t /\ k = t_kw t)).
+        opt_bool (t_opts t) "disclose_me" = true /\ a = t_args t /\ k = t_kw t /\
+        (* the testament's owner departs in this step *)
+        find_session (r_clients (fst (step r o))) z = None)).
 Proof. exact realm_no_identity_leak_event_noauthz_proof. Qed.
 Print Assumptions realm_no_identity_leak_event_noauthz.
 
